@@ -212,24 +212,34 @@ def default_table():
 
 
 def default_product(seed, pass_no):
-    """The whole product prefix spelling x unit spelling x {'', 's'}, shuffled by (VERIF_SEED, pass)."""
+    """The whole product prefix spelling x unit spelling x {'', 's'} as a list of chunks, one chunk per
+    canonical unit (all its spellings, every prefix, both plural forms, in seeded random order; the order
+    of the units is seeded too). Strings that register or hit the same implicitly defined units thus meet
+    in one run, each time after another history."""
     key = (seed, pass_no)
     if key not in _PRODUCT:
         t = default_table()
         ps = sorted(t.prefix_spellings())  # includes '' (no prefix)
-        us = sorted(t.unit_spellings())
-        prod = [p + u + s for p in ps for u in us for s in ("", "s")]
-        random.Random(derive(seed, "C08-product", pass_no)).shuffle(prod)
+        by_unit = {}
+        for sp, n in t.unit_spellings().items():
+            by_unit.setdefault(n, []).append(sp)
+        rng = random.Random(derive(seed, "C08-product", pass_no))
+        units = sorted(by_unit)
+        rng.shuffle(units)
+        chunks = []
+        for n in units:
+            strings = [p + u + s for p in ps for u in sorted(by_unit[n]) for s in ("", "s")]
+            rng.shuffle(strings)
+            chunks.append(strings)
         _PRODUCT.clear()
         _PRODUCT["table"] = t
-        _PRODUCT[key] = prod
+        _PRODUCT[key] = chunks
     return _PRODUCT[key]
 
 
 def n_chunks():
     t = default_table()
-    total = len(t.prefix_spellings()) * len(t.unit_spellings()) * 2
-    return (total + CHUNK - 1) // CHUNK
+    return len(set(t.unit_spellings().values()))
 
 
 # =========================================================================== the world
@@ -282,7 +292,7 @@ class NamesWorld:
     def sample(self, case):
         if case["kind"] == "default":
             prog = _default_program(case)
-            return {"index": case["index"], "kind": "default", "chunk": case["chunk"], "pass": case["pass"],
+            return {"index": case["index"], "kind": "default", "unit_chunk": case["chunk"], "pass": case["pass"],
                     "first_lookups": prog[:12], "lookups": len(prog), "fault_plan": case["faults"]}
         return {"index": case["index"], "kind": "gen", "knobs": case["knobs"], "definitions": render_all(case["spec"]),
                 "program": case["program"][:40], "fault_plan": case["faults"]}
@@ -340,8 +350,7 @@ class NamesWorld:
 def _default_program(case):
     if case.get("program") is not None:
         return case["program"]
-    prod = default_product(case.get("seed", 0), case["pass"])
-    strings = prod[case["chunk"] * CHUNK:(case["chunk"] + 1) * CHUNK]
+    strings = default_product(case.get("seed", 0), case["pass"])[case["chunk"]]
     rng = random.Random(case["via_seed"])
     prog = []
     for i, s in enumerate(strings):
@@ -351,8 +360,13 @@ def _default_program(case):
         if via == "compound":
             st["s2"] = rng.choice(["meter", "second", "kg", "degC"])
             st["e"] = rng.choice([1, 2, -1])
-        if via in ("parse_units", "get_name", "get_symbol", "parse_unit_name") and rng.random() < 0.1:
+        if via in ("parse_units", "get_name", "get_symbol", "parse_unit_name") and rng.random() < 0.12:
             st["cs"] = False
+            if rng.random() < 0.6:
+                # the case-folded variants of the property: same string in another letter case
+                v = rng.choice([s.lower(), s.upper(), s.swapcase(), s[:1].swapcase() + s[1:]])
+                if v.isidentifier() or via != "parse_units":
+                    st["s"] = v
         prog.append(st)
         if rng.random() < 0.1 and prog:
             prog.append(dict(rng.choice(prog), id=100000 + i))  # revisit after more history
